@@ -1531,6 +1531,8 @@ func (b *bsiGroup) baseValue(op pql.Token, value int64) (baseValue int64, outOfR
 			return baseValue, true
 		} else if value > min {
 			baseValue = int64(value - b.Base)
+		} else {
+			baseValue = int64(min - b.Base)
 		}
 	} else if op == pql.LT || op == pql.LTE {
 		if value < min {
@@ -1552,7 +1554,8 @@ func (b *bsiGroup) baseValue(op pql.Token, value int64) (baseValue int64, outOfR
 // baseValueBetween adjusts the min/max value to align with the range for Field.
 func (b *bsiGroup) baseValueBetween(lo, hi int64) (baseValueLo, baseValueHi int64, outOfRange bool) {
 	min, max := b.bitDepthMin(), b.bitDepthMax()
-	if hi < min || lo > max {
+	// (An inverted range is empty.)
+	if lo > hi || hi < min || lo > max {
 		return 0, 0, true
 	}
 
